@@ -86,6 +86,31 @@ def run_subprocess(argv: List[str], stdin_text: str) -> str:
     return canon(status, out, err)
 
 
+def run_split(text: str) -> str:
+    """the documents the REAL `main` cuts stdin into (NDJSON mode): `process_json_doc` is replaced by a recorder, so the lengths are
+    those of the `document` strings the loop of main() hands over"""
+    import celpy.__main__ as cm
+    seen: List[int] = []
+
+    def recorder(display, prgm, activation, variable, document, boolean_to_status=False):
+        seen.append(len(document))
+        return 0
+    old, old_in = cm.process_json_doc, sys.stdin
+    cm.process_json_doc = recorder
+    sys.stdin = io.StringIO(text)
+    try:
+        with contextlib.redirect_stdout(io.StringIO()), contextlib.redirect_stderr(io.StringIO()):
+            try:
+                cm.main(["--", "true"])
+            except SystemExit as ex:
+                return f"exit {ex.code}"
+            except Exception as ex:  # noqa
+                return "raise " + type(ex).__name__
+    finally:
+        cm.process_json_doc, sys.stdin = old, old_in
+    return " ".join(str(n) for n in seen)
+
+
 def split_lines(text: str) -> List[str]:
     """the way `for document in sys.stdin` cuts the input"""
     return re.findall(r"[^\n]*\n|[^\n]+", text)
@@ -577,6 +602,15 @@ class C20(Prop):
                 text = json.dumps(gen_doc(rng)) + "\n" + json.dumps(gen_doc(rng)) + "\n"   # two documents are not one document
             cases.append({"kind": "slurp", "mode": "s", "b": b, "pd": pd, "expr": gen_expr(rng, pd, want_bool=rng.random() < 0.5),
                           "args": [], "stdin": text})
+        # the cutting of the input text into documents (model: Cel.Cli.splitLines; implementation: the documents main() hands to
+        # process_json_doc): the stdin of the streams above and short random texts over newline-like characters
+        texts = [c["stdin"] for c in cases if c["mode"] == "j" and c["kind"] == "stream"]
+        texts = texts[:120 if quick else 2000] + [c["stdin"] for c in cases if c.get("solo")]
+        alphabet = ["a", "{", "\"", " ", "\n", "\n", "\n", "\r", "\u00e9"] + SEP_CHARS
+        for i in range(150 if quick else 3000):
+            texts.append("".join(rng.choice(alphabet) for _ in range(rng.choice([0, 1, 2, 3, 5, 8, 12]))))
+        for t in texts:
+            cases.append({"kind": "split", "mode": "split", "stdin": t})
         # a sample through a real process (exit codes)
         pool = [c for c in cases]
         rng.shuffle(pool)
@@ -596,6 +630,8 @@ class C20(Prop):
 
     # ---- implementation ----------------------------------------------------------------------------------
     def impl(self, c: Dict[str, Any]) -> str:
+        if c["kind"] == "split":
+            return run_split(c["stdin"])
         argv = argv_of(c)
         if c.get("sub"):
             return run_subprocess(argv, c.get("stdin", ""))
@@ -603,6 +639,8 @@ class C20(Prop):
 
     # ---- model ---------------------------------------------------------------------------------------------
     def model_line(self, c):
+        if c["kind"] == "split":
+            return "split " + " ".join(str(ord(ch)) for ch in c["stdin"])
         an = self._an(c)
         if an.get("compile_escape"):
             return None
@@ -612,6 +650,8 @@ class C20(Prop):
         return f"main {int(an['argsOk'])} {int(an['compiles'])} {c['mode']} {int(bool(c.get('b')))} " + " ".join(toks)
 
     def model_expect(self, c, m):
+        if c["kind"] == "split":
+            return m.strip()
         an = self._an(c)
         status, _, outs = m.partition(" | ")
         lines = [an["texts"].get(t, t) for t in outs.split(" ") if t]
@@ -629,6 +669,12 @@ class C20(Prop):
         return st[len("status="):], loc[len("loc="):], json.loads(o[len("out="):])
 
     def oracle(self, c, out):
+        if c["kind"] == "split":
+            want = " ".join(str(len(t)) for t in split_lines(c["stdin"]))
+            if out != want:
+                return (f"NDJSON input {c['stdin'][:80]!r}: main() cut it into documents of lengths [{out}], the physical lines have lengths [{want}] "
+                        f"(one document per '\\n'-terminated line)")
+            return None
         an = self._an(c)
         status, loc, lines = self._parse(out)
         where = f"argv={argv_of(c)!r} stdin={c.get('stdin', '')[:120]!r}"
@@ -707,6 +753,8 @@ class C20(Prop):
         return None
 
     def nontrivial(self, c, out):
+        if c["kind"] == "split":
+            return "\n" in c["stdin"] and any(ch in c["stdin"] for ch in SEP_CHARS + ["\r"])
         an = self._an(c)
         if not an["argsOk"] or not an["compiles"] or c.get("args") or c.get("b"):
             return True
